@@ -51,3 +51,4 @@ def _wrap_agent(modname, label):
 CORR["bfgs"] = _wrap_agent("harness.corr.bfgs", "BFGS matrix model vs update_lbfgs_matrices")
 CORR["cauchy"] = _wrap_agent("harness.corr.cauchy", "Cauchy-point model vs get_cauchy_point")
 CORR["subspace"] = _wrap_agent("harness.corr.subspace", "subspace-step model vs get_freev + subspace_minimization")
+CORR["dcsrch"] = _wrap_agent("harness.corr.dcsrch", "DCSRCH model vs scipy.optimize._dcsrch.DCSRCH")
